@@ -215,6 +215,38 @@ def run(F, R, tier):
     dc = [n for n in tf["_nodes"] if n.get("k") == "MethodCall" and n["name"] == "clear" and peel(n["recv"]).get("field") == "decorators"]
     R.ob("C10-e", "function and parameter decorators are removed", len(dc) == 2, "transform_fn clears decorators at %d site(s)" % len(dc), tf["file"])
 
+    # return-statement analysis: the whole analysis is only aborted once the verdict is final (Multiple)
+    n_brk = 0
+    for b in F.bodies:
+        if not b["path"].startswith("fast_check::swc_helpers::analyze_return_stmts"):
+            continue
+        for n in b["_nodes"]:
+            if ctor_of(n) == "std::ops::ControlFlow::Break" and n.get("k") == "Call":
+                n_brk += 1
+                blk = n
+                while blk.get("_p") is not None and blk.get("k") != "Block":
+                    blk = blk["_p"]
+                ok = any(x.get("k") == "Assign" and (ctor_of(peel(x["r"])) or "").endswith("ReturnStatementAnalysis::Multiple") and may_reach(F, x, n) for x in walk(blk))
+                R.ob("C10-f", "the return-statement analysis is aborted only after it reached its final verdict", ok,
+                     "ControlFlow::Break(()) is produced in %s without the analysis having been set to Multiple: callers propagate it with `?`, so later `return <value>` statements are never seen and an un-annotated function is emitted as `: void` without a diagnostic" % b["path"].split("::")[-1], where(n))
+    R.floor("C10-f abort sites of the return analysis", n_brk, 1)
+    # destructured parameters never keep their binding elements
+    hp = F.body(T + "handle_param_pat")
+    for fld in ("elems", "props"):
+        cl = [n for n in hp["_nodes"] if n.get("k") == "MethodCall" and n["name"] == "clear" and peel(n["recv"]).get("field") == fld]
+        R.floor("C10-f clears of destructuring %s" % fld, len(cl), 1)
+        for c_ in cl:
+            # the clear must not be conditional within its match arm
+            arm = None
+            for a_ in ancestors(c_):
+                if "k" not in a_ and "pat" in a_ and "body" in a_:
+                    arm = a_
+                    break
+            g = guards_at(F, c_, stop_at=arm) if arm else guards_at(F, c_)
+            conds = [x for x in g if x.kind == "cond"]
+            R.ob("C10-f", "a destructuring parameter pattern always loses its binding %s" % fld, not conds,
+                 "`%s.clear()` only happens under %s: an untyped destructured parameter keeps its elements, including default expressions with calls" % (fld, [x.text()[:50] for x in conds]), where(c_))
+
     # ---------------- C10-f ------------------------------------------------
     diag_fns = set()
     for b in F.bodies:
